@@ -472,8 +472,36 @@ def run(ctx):
             only = C.only_via_edge(eff, b, "T")
             if any(eff.nodes[e]["k"] == "bin" and eff.nodes[e]["op"] == "=" and C.const_of(eff, eff.nodes[e]["r"]) == -1 for bb in only for e in eff.blocks[bb].elems):
                 nfail += 1
-    if nfail >= len(fields):
-        r2.ok("a failing wrapper makes tcp_opts_effectuate fail", "control dependence")
+    # ... and stays negative up to the return: on every path on which some wrapper failed the function answers -1
+    lost = []
+    nfailed_exits = [0]
+
+    class Sticky(S.SeqRule):
+        def user0(s2, fn):
+            return False
+
+        def inline(s2, fn, nid, callee):
+            return False
+
+        def on_branch(s2, fn, st, blk, cond, label):
+            if label not in ("T", "F"):
+                return None
+            l, op, r = C.cond_atom(fn, cond, label == "T")
+            if fn.sn(l)["k"] == "call" and not isinstance(r, tuple) and C.const_of(fn, r) == 0 and op == "<":
+                return True
+            return None
+
+        def on_exit(s2, fn, st, ret_nid, ret_cls, top):
+            if top and st.user:
+                nfailed_exits[0] += 1
+                if ret_cls != S.NEG and not lost:
+                    lost.append(ret_nid)
+    S.run(Sticky(P), eff)
+    if nfail >= len(fields) and nfailed_exits[0] >= 1 and not lost:
+        r2.ok("a failing wrapper makes tcp_opts_effectuate fail, whatever the later wrappers answer", "control dependence + path exploration")
+    elif lost:
+        r2.violation("tcp_opts_effectuate:failure-lost", "tcp_opts_effectuate can answer success although one of the setsockopt wrappers failed (a later result overwrites the "
+                     "failure): the connection is established with an option the kernel refused, and xcm_attr_get reports the value that is not in force", loc=eff.loc(lost[0]) if lost[0] else eff.file)
     else:
         r2.violation("tcp_opts_effectuate:failure", "only %d of the wrapper failures are reported" % nfail, loc=eff.file)
 
@@ -835,6 +863,7 @@ def run(ctx):
     # ------------------------------------------------------------------ R10
     r10 = ctx.rule("C11.R10", "attribute setters answer 0 or -1: the walk over an attribute map stops on any non-zero status but fails only on a negative one")
     check_setter_status(P, r10)
+    _ctx_items_rule(ctx, P)
 
 
 def check_setter_status(P, rule):
@@ -895,3 +924,11 @@ def check_setter_status(P, rule):
                            "(status >= 0), so the attributes not yet applied - xcm.blocking among them - are silently dropped" % (d.name, d.show(pos[1])[:50]), loc=d.loc(pos[0]))
         else:
             rule.ok("%s answers 0, -1 or another setter's status only" % d.qname, "value origin of every return")
+
+
+def _ctx_items_rule(ctx, P):
+    # credentials and revocation lists given in the xcm_accept_a()/xcm_connect_a() map take effect: the context is built
+    # from the items of the socket being configured (C18.R9's engine)
+    from . import C18 as c18
+    r11 = ctx.rule("C11.R11", "tls.* credential attributes of a socket take effect on that socket: its context is built from its own items")
+    c18.check_ctx_args(P, r11)
